@@ -102,6 +102,16 @@ SXOP(d_mul) { DenseMatrix A = DMV(c, e, 1), B = DMV(c, e, 2); DenseMatrix C(A.nr
 SXOP(d_elementwise_mul) { DenseMatrix A = DMV(c, e, 1), B = DMV(c, e, 2); DenseMatrix C(A.nrows(), A.ncols()); A.elementwise_mul_matrix(B, C); return Val::M(C); }
 SXOP(d_mul_self) { DenseMatrix A = DMV(c, e, 1); A.mul_matrix(A, A); return Val::M(A); }      // self-aliasing call
 SXOP(d_add_self) { DenseMatrix A = DMV(c, e, 1); A.add_matrix(A, A); return Val::M(A); }
+// result object is one of the operands
+SXOP(d_mul_into_right) { DenseMatrix A = DMV(c, e, 1), B = DMV(c, e, 2); A.mul_matrix(B, B); return Val::M(B); }
+SXOP(d_mul_into_left) { DenseMatrix A = DMV(c, e, 1), B = DMV(c, e, 2); A.mul_matrix(B, A); return Val::M(A); }
+SXOP(d_mul_dense_into_right) { DenseMatrix A = DMV(c, e, 1), B = DMV(c, e, 2); mul_dense_dense(A, B, B); return Val::M(B); }
+SXOP(d_add_into_right) { DenseMatrix A = DMV(c, e, 1), B = DMV(c, e, 2); A.add_matrix(B, B); return Val::M(B); }
+SXOP(d_add_into_left) { DenseMatrix A = DMV(c, e, 1), B = DMV(c, e, 2); A.add_matrix(B, A); return Val::M(A); }
+SXOP(d_elementwise_mul_into_right) { DenseMatrix A = DMV(c, e, 1), B = DMV(c, e, 2); A.elementwise_mul_matrix(B, B); return Val::M(B); }
+SXOP(d_elementwise_mul_into_left) { DenseMatrix A = DMV(c, e, 1), B = DMV(c, e, 2); A.elementwise_mul_matrix(B, A); return Val::M(A); }
+SXOP(d_mul_scalar_self) { DenseMatrix A = DMV(c, e, 1); A.mul_scalar(c.B(e, 2), A); return Val::M(A); }
+SXOP(d_add_scalar_self) { DenseMatrix A = DMV(c, e, 1); A.add_scalar(c.B(e, 2), A); return Val::M(A); }
 #define D_SOLVE(name, call) \
     SXOP(name) \
     { \
